@@ -145,3 +145,33 @@ func GenOp(c ProgCtx) *rapid.Generator[Op] {
 		return op
 	})
 }
+
+// GenDropRecreate: a scripted scenario that program generators splice in:
+// several key-adjacent rows whose only cells are in one family, that family
+// dropped and created again (in one request or two), data written elsewhere.
+func GenDropRecreate(table, parent string, keys []BS) *rapid.Generator[[]Op] {
+	return rapid.Custom(func(t *rapid.T) []Op {
+		fam := rapid.SampledFrom([]string{"f", "g", "h"}).Draw(t, "dropfam")
+		other := "g"
+		if fam == "g" {
+			other = "f"
+		}
+		var ops []Op
+		n := rapid.IntRange(2, len(keys)).Draw(t, "nrows")
+		for i, k := range keys[:n] {
+			muts := []Mut{{K: "set", Fam: fam, Qual: "q", TS: 1000, Val: "x"}}
+			if rapid.IntRange(0, 4).Draw(t, "mixed") == 0 {
+				muts = append(muts, Mut{K: "set", Fam: other, Qual: "q", TS: 1000, Val: BS(string(rune('a' + i)))})
+			}
+			ops = append(ops, Op{K: "MutateRow", Parent: parent, Table: table, Key: k, Muts: append([]Mut{{K: "delrow"}}, muts...)})
+		}
+		if rapid.Bool().Draw(t, "onerequest") {
+			ops = append(ops, Op{K: "ModifyCF", Parent: parent, Table: table, Mods: []Mod{{K: "drop", ID: fam}, {K: "create", ID: fam}}})
+		} else {
+			ops = append(ops, Op{K: "ModifyCF", Parent: parent, Table: table, Mods: []Mod{{K: "drop", ID: fam}}},
+				Op{K: "ModifyCF", Parent: parent, Table: table, Mods: []Mod{{K: "create", ID: fam}}})
+		}
+		ops = append(ops, Op{K: "ReadRows", Parent: parent, Table: table})
+		return ops
+	})
+}
